@@ -7,13 +7,24 @@
 //!       ops  t:<tick>:<0|1>  s:<hex>  d:<hex>  m:<hex>  u
 //!       -> new=<ok|panic> ops=<o|p per op> file=<hex> | <read-out of that file>
 //!   rd  <file hex>  -> <read-out>
+//!   hl  <the eight header fields> sz=<ty>:<size>,.. <op>...      (DemoWriter / DemoReader of ddnet)
+//!       ops  S:<tick>:<ty>/<id>/<i32,..>;..   M:<hex of the encoded game message>
+//!       -> new=ok res=<o|eT|eB<err>|eS|eM|p per op> file=<hex> | hdr v=.. w=.. <T<tick> | M<hex> | S[items] | I>... end
 //! read-out: `hdr v=.. nv=.. mn=.. ms=.. crc=.. kind=.. len=.. ts=.. tm=.. sha=.. map=.. w=<warnings>`,
 //! one item per chunk (`T<tick>:<keyframe>`, `S<hex>`, `D<hex>`, `M<hex>`, `U`, each with `!<warnings>`),
 //! then `end`, `err:<kind>` or `panic`; `hdr-err:<kind>` if Reader::new fails.
 use arrayvec::ArrayVec;
 use libtw2_common::digest::Sha256;
 use libtw2_demo::{DemoKind, RawChunk, ReadError, Reader, Warning, Writer};
+use libtw2_demo::ddnet;
+use libtw2_gamenet_common::snap_obj::TypeId;
+use libtw2_gamenet_common::traits::MessageExt as _;
+use libtw2_gamenet_common::traits::ProtocolStatic as _;
+use libtw2_gamenet_ddnet::msg::Game;
+use libtw2_gamenet_ddnet::Protocol;
+use libtw2_gamenet_ddnet::SnapObj;
 use libtw2_huffman::instances::TEEWORLDS as HUFFMAN;
+use libtw2_packer::{with_packer, IntUnpacker, Unpacker};
 use std::io::Cursor;
 use std::sync::mpsc;
 use std::time::Duration;
@@ -340,6 +351,7 @@ struct Ctx {
     o: Out,
     wr: Worker<(bool, String, Vec<u8>, ReadOut)>,
     rd: Worker<ReadOut>,
+    hl: Worker<(bool, Vec<String>, Vec<u8>, HReadOut, String)>,
 }
 
 fn do_wr(c: &mut Ctx, h: &Hdr, ops: &[Op], via_chunk: bool) {
@@ -443,6 +455,348 @@ fn do_rd(c: &mut Ctx, file: &[u8], tag: &str) {
             o.check(!rd.end.starts_with("panic") && rd.end != "hang", "-", &id, || format!("the reader {} on {}", rd.end, hex(&file[..file.len().min(600)])));
         }
     }
+}
+
+
+// ---------------------------------------------------------------- high-level layer
+
+#[derive(Clone)]
+enum HOp {
+    Snap(i32, Vec<(SnapObj, u16)>),
+    Msg(Vec<u8>), // the encoded game message (decodes to itself)
+}
+
+type Item = (TypeId, u16, Vec<i32>);
+
+fn ty_txt(t: &TypeId) -> String {
+    match t {
+        TypeId::Ordinal(o) => format!("o{}", o),
+        TypeId::Uuid(u) => format!("u{}", hex(u.as_bytes())),
+    }
+}
+
+fn item_txt(i: &Item) -> String {
+    format!("{}/{}/{}", ty_txt(&i.0), i.1, i.2.iter().map(|v| v.to_string()).collect::<Vec<_>>().join(","))
+}
+
+fn items_of(objs: &[(SnapObj, u16)]) -> Vec<Item> {
+    objs.iter().map(|(o, id)| (o.obj_type_id(), *id, o.encode().to_vec())).collect()
+}
+
+fn hop_txt(op: &HOp) -> String {
+    match op {
+        HOp::Snap(t, objs) => format!("S:{}:{}", t, items_of(objs).iter().map(item_txt).collect::<Vec<_>>().join(";")),
+        HOp::Msg(enc) => format!("M:{}", hex(enc)),
+    }
+}
+
+fn hwarn_txt(w: &ddnet::Warning) -> String {
+    use libtw2_snapshot::format::Warning as S;
+    match w {
+        ddnet::Warning::Demo(w) => warn_txt(w).to_string(),
+        ddnet::Warning::Snapshot(w) => match w {
+            S::Packer(p) => format!("s{}", warn_txt(&Warning::Message(*p))),
+            S::NonZeroPadding => "sNonZeroPadding".into(),
+            S::DuplicateDelete => "sDuplicateDelete".into(),
+            S::DuplicateUpdate => "sDuplicateUpdate".into(),
+            S::UnknownDelete => "sUnknownDelete".into(),
+            S::DeleteUpdate => "sDeleteUpdate".into(),
+            S::NumUpdatedItems => "sNumUpdatedItems".into(),
+            S::ExcessSnapData => "sExcessSnapData".into(),
+            S::ExcessUuidItemData => "sExcessUuidItemData".into(),
+        },
+        ddnet::Warning::Packer(p) => format!("typed-pk-{:?}", p),
+        ddnet::Warning::ExcessItemData => "typed-excess-item".into(),
+        ddnet::Warning::Gamenet(e) => format!("typed-gamenet-{:?}", e),
+    }
+}
+
+fn hwsfx(ws: &[ddnet::Warning]) -> String {
+    if ws.is_empty() { String::new() } else { format!("!{}", ws.iter().map(hwarn_txt).collect::<Vec<_>>().join(",")) }
+}
+
+#[derive(Clone, Debug, PartialEq)]
+enum HChunk {
+    Tick(i32),
+    Msg(Vec<u8>),
+    Snap(Vec<Item>),
+    Invalid,
+}
+
+#[derive(Clone, Default)]
+struct HReadOut {
+    text: String,
+    chunks: Vec<(HChunk, usize)>,
+    hdr_warns: usize,
+    end: String,
+}
+
+fn hread_file(file: &[u8]) -> HReadOut {
+    let mut out = HReadOut::default();
+    let mut ws: Vec<ddnet::Warning> = vec![];
+    let new = guard(|| ddnet::DemoReader::<Protocol>::new(Cursor::new(file), &mut ws));
+    let mut r = match new {
+        Err(p) => { out.text = "hdr-panic".into(); out.end = format!("panic: {}", p); return out; }
+        Ok(Err(ddnet::ReadError::Inner(e))) => { out.text = format!("hdr-err:{}", err_txt(&e)); out.end = out.text.clone(); return out; }
+        Ok(Err(ddnet::ReadError::Snap(e))) => { out.text = format!("hdr-err:snap-{:?}", e); out.end = out.text.clone(); return out; }
+        Ok(Ok(r)) => r,
+    };
+    let hw: Vec<String> = ws.iter().map(hwarn_txt).collect();
+    let mut s = format!("hdr v={} w={}", r.version() as u8, if hw.is_empty() { "-".to_string() } else { hw.join(",") });
+    out.hdr_warns = ws.len();
+    for _ in 0..file.len() + 2 {
+        let mut ws: Vec<ddnet::Warning> = vec![];
+        let res = guard(|| {
+            r.next_chunk(&mut ws).map(|c| {
+                c.map(|c| match c {
+                    ddnet::Chunk::Tick(t) => HChunk::Tick(t),
+                    ddnet::Chunk::Message(m) => {
+                        let mut v: Vec<u8> = Vec::with_capacity(1 << 17);
+                        with_packer(&mut v, |p| m.encode(p).map(|_| ())).unwrap();
+                        HChunk::Msg(pad4(&v))
+                    }
+                    ddnet::Chunk::Snapshot(it) => HChunk::Snap(it.map(|(o, id)| (o.obj_type_id(), *id, o.encode().to_vec())).collect()),
+                    ddnet::Chunk::Invalid => HChunk::Invalid,
+                })
+            })
+        });
+        match res {
+            Err(p) => { s += &format!(" panic{}", hwsfx(&ws)); out.end = format!("panic: {}", p); break; }
+            Ok(Err(ddnet::ReadError::Inner(e))) => { s += &format!(" err:{}{}", err_txt(&e), hwsfx(&ws)); out.end = format!("err:{}", err_txt(&e)); break; }
+            Ok(Err(ddnet::ReadError::Snap(e))) => { s += &format!(" err:snap-{:?}{}", e, hwsfx(&ws)); out.end = format!("err:snap-{:?}", e); break; }
+            Ok(Ok(None)) => { s += &format!(" end{}", hwsfx(&ws)); out.end = if ws.is_empty() { "end".into() } else { "end-with-warnings".into() }; break; }
+            Ok(Ok(Some(c))) => {
+                s.push(' ');
+                s += &match &c {
+                    HChunk::Tick(t) => format!("T{}", t),
+                    HChunk::Msg(m) => format!("M{}", hex(m)),
+                    HChunk::Snap(items) => format!("S[{}]", items.iter().map(item_txt).collect::<Vec<_>>().join(";")),
+                    HChunk::Invalid => "I".into(),
+                };
+                s += &hwsfx(&ws);
+                out.chunks.push((c, ws.len()));
+            }
+        }
+    }
+    if out.end.is_empty() { s += " hang"; out.end = "hang".into(); }
+    out.text = s;
+    out
+}
+
+/// DemoWriter::new + one call per op; a panicking call ends the run. Returns (new ok?, per-op results, file)
+fn hwrite_file(h: &Hdr, ops: &[HOp]) -> (bool, Vec<String>, Vec<u8>, String) {
+    let mut cur = Cursor::new(Vec::new());
+    let mut res: Vec<String> = vec![];
+    let mut panic_msg = String::new();
+    let ok = {
+        let curref = &mut cur;
+        let new = guard(move || {
+            ddnet::DemoWriter::<Protocol>::new(curref, &h.nv, &h.mn, h.sha.map(Sha256), h.crc,
+                if h.client { DemoKind::Client } else { DemoKind::Server }, h.length, &h.ts, &h.map)
+        });
+        match new {
+            Ok(Ok(mut w)) => {
+                for op in ops {
+                    let r = guard(|| match op {
+                        HOp::Snap(t, objs) => w.write_snap(*t, objs.iter().map(|(o, id)| (o, *id))),
+                        HOp::Msg(enc) => {
+                            let mut pw = vec![];
+                            let m = Game::decode(&mut pw, &mut Unpacker::new(enc)).expect("generator: message does not decode");
+                            w.write_msg(&m)
+                        }
+                    });
+                    let (txt, stop) = match r {
+                        Ok(Ok(())) => ("o".to_string(), false),
+                        Ok(Err(ddnet::WriteError::TooLowTickNumber)) => ("eT".to_string(), false),
+                        Ok(Err(ddnet::WriteError::SnapBuilder(e))) => (format!("eB{:?}", e), false),
+                        Ok(Err(ddnet::WriteError::TooLargeSnap)) => ("eS".to_string(), false),
+                        Ok(Err(ddnet::WriteError::TooLongNetMsg)) => ("eM".to_string(), false),
+                        Ok(Err(ddnet::WriteError::Inner(_))) => ("eI".to_string(), false),
+                        Err(m) => {
+                            panic_msg = m;
+                            ("p".to_string(), true)
+                        }
+                    };
+                    res.push(txt);
+                    if stop { break; }
+                }
+                true
+            }
+            _ => false,
+        }
+    };
+    (ok, res, cur.into_inner(), panic_msg)
+}
+
+fn sizes_txt() -> String {
+    let mut v = vec![];
+    for ty in 0..=64u16 {
+        if let Some(n) = Protocol::obj_size(ty) { v.push(format!("{}:{}", ty, n)); }
+    }
+    format!("sz={}", v.join(","))
+}
+
+fn do_hl(c: &mut Ctx, h: &Hdr, ops: &[HOp]) {
+    let mut case = format!("hl\t{}\t{}\t{}\t{}\t{}\t{}\t{}\t{}\t{}", hex(&h.nv), hex(&h.mn), h.sha.map(|s| hex(&s)).unwrap_or("none".into()),
+        h.crc, if h.client { "c" } else { "s" }, h.length, hex(&h.ts), hex(&h.map), sizes_txt());
+    for op in ops { case.push('\t'); case += &hop_txt(op); }
+    let (h2, ops2) = (h.clone(), ops.to_vec());
+    let r = c.hl.run(120, move || { let (ok, res, file, pm) = hwrite_file(&h2, &ops2); let rd = hread_file(&file); (ok, res, file, rd, pm) });
+    let o = &mut c.o;
+    let (ok, res, file, rd, pm) = match r {
+        Some(x) => x,
+        None => { let id = o.case(&case, "hang", "hl-hang"); o.check(false, "-", &id, || "the high-level writer / reader did not return within 120 s".into()); return; }
+    };
+    if !ok { let id = o.case(&case, "new=panic", "hl-newpanic"); o.check(false, "-", &id, || "DemoWriter::new failed".into()); return; }
+    let nsnap = ops.iter().filter(|op| matches!(op, HOp::Snap(..))).count();
+    let kinds: std::collections::BTreeSet<&str> = res.iter().map(|r| &r[..r.len().min(2)]).collect();
+    let sig = format!("hl:{}:{}:{}", kinds.into_iter().collect::<Vec<_>>().join(""), match nsnap { 0 => 0, 1..=3 => 1, 4..=50 => 2, 51..=250 => 3, _ => 4 }, rd.end);
+    let id = o.case(&case, &format!("new=ok res={} file={} | {}", res.join(","), hex(&file), rd.text), &sig);
+
+    // ---- the property on the real code ----
+    // (a) a tick that does not strictly increase is refused with an error, every other call is not refused for its tick;
+    // (b) what was accepted comes back: Tick + the same object set per write_snap, the same message per write_msg.
+    let mut last_tick: i64 = -1;           // DemoWriter starts at -1: negative ticks are refused
+    let mut want: Vec<HChunk> = vec![];
+    let mut tainted = false;               // an error other than the tick refusal happened before (known finding K15W)
+    for (i, op) in ops.iter().enumerate() {
+        let r = match res.get(i) { Some(r) => r.as_str(), None => break };
+        match op {
+            HOp::Snap(t, objs) => {
+                let must_refuse = (*t as i64) <= last_tick;
+                let cls = if tainted { "K15W" } else { "-" };
+                if must_refuse {
+                    o.check(r == "eT", cls, &id, || format!("call {}: write_snap({}) after tick {} returned {} instead of TooLowTickNumber {}", i, t, last_tick, r, pm));
+                } else {
+                    o.check(r != "eT" && r != "p", cls, &id, || format!("call {}: write_snap({}) after tick {} returned {} {}", i, t, last_tick, r, pm));
+                }
+                if r == "o" {
+                    last_tick = *t as i64;
+                    want.push(HChunk::Tick(*t));
+                    let mut items = items_of(objs);
+                    items.sort();
+                    want.push(HChunk::Snap(items));
+                } else if r != "eT" {
+                    tainted = true;
+                }
+            }
+            HOp::Msg(enc) => {
+                if r == "o" { want.push(HChunk::Msg(pad4(enc))); } else { tainted = true; }
+                o.check(r == "o" || enc.len() > MAX || tainted, "-", &id, || format!("call {}: write_msg of {} bytes returned {}", i, enc.len(), r));
+            }
+        }
+    }
+    let cls = if tainted { "K15W" } else { "-" };
+    let got: Vec<HChunk> = rd.chunks.iter().map(|(c, _)| match c { HChunk::Snap(items) => { let mut v = items.clone(); v.sort(); HChunk::Snap(v) } x => x.clone() }).collect();
+    let nw: usize = rd.chunks.iter().map(|(_, n)| *n).sum::<usize>() + rd.hdr_warns;
+    o.check(got == want && nw == 0 && rd.end == "end", cls, &id,
+            || format!("{} chunk(s) expected from the accepted calls, the reader reports {} chunk(s), {} warning(s), ends with {}; first difference at {:?}",
+                       want.len(), got.len(), nw, rd.end, want.iter().zip(got.iter()).position(|(a, b)| a != b)));
+}
+
+/// objects of every ddnet snapshot type, made by decoding random small int vectors (rejection sampling)
+struct Pool {
+    types: Vec<(TypeId, Vec<SnapObj>)>,
+}
+
+fn make_pool(r: &mut Rng) -> Pool {
+    use libtw2_gamenet_ddnet::snap_obj as so;
+    let mut tys: Vec<TypeId> = (1..=20u16).map(TypeId::Ordinal).collect();
+    // DdnetSpectatorInfo is left out: its bool member re-encodes with padding garbage (C14's known finding K14)
+    for u in [so::MY_OWN_OBJECT, so::DDNET_CHARACTER, so::DDNET_PLAYER, so::GAME_INFO_EX, so::DDRACE_PROJECTILE, so::DDNET_LASER,
+              so::DDNET_PROJECTILE, so::DDNET_PICKUP, so::SPECTATOR_COUNT, so::BIRTHDAY, so::FINISH, so::MY_OWN_EVENT, so::SPEC_CHAR,
+              so::SWITCH_STATE, so::ENTITY_EX, so::MAP_SOUND_WORLD] {
+        tys.push(TypeId::Uuid(u));
+    }
+    let mut types = vec![];
+    for ty in tys {
+        let mut objs: Vec<SnapObj> = vec![];
+        let sizes: Vec<usize> = match ty { TypeId::Ordinal(o) => vec![Protocol::obj_size(o).unwrap() as usize], _ => (0..=40).collect() };
+        for &n in &sizes {
+            for attempt in 0..400 {
+                let words: Vec<i32> = (0..n).map(|_| match (attempt / 100, r.below(4)) { (0, _) => r.below(2) as i32, (1, 0) => r.range(-3, 6) as i32, (1, _) => r.below(2) as i32, (2, _) => r.range(0, 15) as i32, (_, 0) => r.i32_edgy(), _ => r.below(3) as i32 }).collect();
+                let mut ex = vec![];
+                let mut up = IntUnpacker::new(&words);
+                if let Ok(obj) = SnapObj::decode_obj(&mut ex, ty, &mut up) {
+                    // the whole vector was used and the object re-encodes to it
+                    if ex.is_empty() && obj.encode() == &words[..] && !objs.iter().any(|o| o.encode() == obj.encode()) { objs.push(obj); }
+                }
+                if objs.len() >= 12 { break; }
+            }
+            if !objs.is_empty() && matches!(ty, TypeId::Uuid(_)) { break; }
+        }
+        if !objs.is_empty() { types.push((ty, objs)); }
+    }
+    Pool { types }
+}
+
+fn game_msgs(r: &mut Rng) -> Vec<Vec<u8>> {
+    use libtw2_gamenet_ddnet::msg::game::*;
+    let text: Vec<u8> = (0..r.below(40)).map(|_| r.range(32, 126) as u8).collect();
+    let cands: Vec<Game> = vec![
+        Game::SvMotd(SvMotd { message: b"welcome" }),
+        Game::SvBroadcast(SvBroadcast { message: &text }),
+        Game::SvChat(SvChat { team: 0, client_id: 3, message: &text }),
+        Game::SvChat(SvChat { team: 1, client_id: -1, message: b"" }),
+        Game::SvKillMsg(SvKillMsg { killer: 1, victim: 2, weapon: -3, mode_special: 0 }),
+        Game::SvReadyToEnter(SvReadyToEnter),
+        Game::SvVoteClearOptions(SvVoteClearOptions),
+        Game::SvKillMsgTeam(SvKillMsgTeam { team: 5, first: 63 }),
+        Game::SvYourVote(SvYourVote { voted: -1 }),
+    ];
+    let mut out = vec![];
+    for m in cands {
+        let mut v: Vec<u8> = Vec::with_capacity(256);
+        with_packer(&mut v, |p| m.encode(p).map(|_| ())).unwrap();
+        // keep the ones that decode to a message that encodes to the same bytes (the typed layer is C14's)
+        let mut pw = vec![];
+        if let Ok(m2) = Game::decode(&mut pw, &mut Unpacker::new(&v)) {
+            let mut v2: Vec<u8> = Vec::with_capacity(256);
+            with_packer(&mut v2, |p| m2.encode(p).map(|_| ())).unwrap();
+            if v2 == v && pw.is_empty() { out.push(v); }
+        }
+    }
+    out
+}
+
+/// a world history: objects appear, change and vanish; ticks advance by 1 (sometimes more, around the
+/// 250-tick key-frame interval); now and then a tick that does not increase, and messages in between
+fn gen_history(r: &mut Rng, pool: &Pool, msgs: &[Vec<u8>], n: usize, refusals: bool) -> Vec<HOp> {
+    let mut ops = vec![];
+    let mut world: std::collections::BTreeMap<(usize, u16), usize> = std::collections::BTreeMap::new(); // (type index, id) -> variant
+    let mut tick: i32 = match r.below(4) { 0 => 0, 1 => 1, 2 => r.below(100000) as i32, _ => r.below(50) as i32 };
+    let mut first = true;
+    for _ in 0..n {
+        // change the world
+        for _ in 0..r.below(4) {
+            let ti = r.below(pool.types.len() as u64) as usize;
+            let id = match r.below(4) { 0 => 0, 1 => r.below(4) as u16, 2 => r.below(64) as u16, _ => *r.pick(&[255u16, 256, 1000, 65535]) };
+            let vi = r.below(pool.types[ti].1.len() as u64) as usize;
+            world.insert((ti, id), vi);
+        }
+        if !world.is_empty() && r.chance(1, 3) {
+            let k = *world.keys().nth(r.below(world.len() as u64) as usize).unwrap();
+            world.remove(&k);
+        }
+        if r.chance(1, 40) { world.clear(); }
+        let mut objs: Vec<(SnapObj, u16)> = world.iter().map(|(&(ti, id), &vi)| (pool.types[ti].1[vi], id)).collect();
+        // the order of the iterator does not matter
+        if r.chance(1, 2) { objs.reverse(); }
+        if !first {
+            tick = tick.saturating_add(match r.below(40) { 0 => 2, 1 => 31, 2 => 32, 3 => 249, 4 => 250, 5 => 251, 6 => 300, 7 => 1 + r.below(600) as i32, _ => 1 });
+        }
+        first = false;
+        if refusals && r.chance(1, 12) {
+            // a tick that does not strictly increase: equal, lower, negative
+            let bad = match r.below(4) { 0 => tick, 1 => tick - 1, 2 => -1, _ => tick - r.below(300) as i32 };
+            ops.push(HOp::Snap(bad, objs.clone()));
+            // the failed call must not count
+        }
+        ops.push(HOp::Snap(tick, objs));
+        if refusals && r.chance(1, 15) { ops.push(HOp::Snap(tick, vec![])); }
+        for _ in 0..r.below(3) { if !msgs.is_empty() && r.chance(1, 2) { ops.push(HOp::Msg(r.pick(msgs).clone())); } }
+    }
+    ops
 }
 
 // ---------------------------------------------------------------- generators
@@ -560,7 +914,7 @@ fn plain_hdr() -> Hdr {
 fn main() {
     let a = Args::parse();
     let o = Out::new(&a, "wr: Writer::new + write_tick/write_snapshot/write_snapshot_delta/write_message/write_chunk on an in-memory file, file bytes and read-back compared with the model (headers: strings of length 0..capacity-1 and beyond, with/without SHA-256, edge crc/length; ticks: first tick anywhere in i32, gaps 1,2,30..33,63,64,random,up to i32::MAX, keyframes, non-increasing; payloads: empty, compressed size 28..31 and 254..257, up to 65535/65536/too long, raw size 65535..65537, message lengths mod 4 = 0..3, ints of every encoded length); rd: Reader on written files after truncation at every header boundary, byte mutation, version byte 3..7, hand-made chunk headers (all 256 flag bytes x versions, overlong sizes, delta/absolute ticks, padding bits), garbage. distinct = distinct (kind, outcome, size class, warning class) signatures");
-    let mut c = Ctx { o, wr: Worker::new(), rd: Worker::new() };
+    let mut c = Ctx { o, wr: Worker::new(), rd: Worker::new(), hl: Worker::new() };
     let mut r = Rng::new(a.seed);
     let th = a.thorough();
     let bits = sym_bits();
@@ -751,6 +1105,51 @@ fn main() {
         }
         if r.chance(1, 6) { let k = r.below(f.len() as u64 + 1) as usize; f.truncate(k.max(436.min(f.len()))); }
         do_rd(&mut c, &f, "stream");
+    }
+    // ---- high-level layer: DemoWriter / DemoReader
+    let pool = make_pool(&mut r);
+    c.o.sample(format!("hl object pool: {} types, {} objects", pool.types.len(), pool.types.iter().map(|t| t.1.len()).sum::<usize>()));
+    let msgs = game_msgs(&mut r);
+    // #13: the same tick twice, a lower tick, a negative first tick
+    {
+        let a = vec![(pool.types[1].1[0], 1u16), (pool.types[2].1[0], 2)];
+        let b = vec![(pool.types[1].1[1 % pool.types[1].1.len()], 1u16)];
+        do_hl(&mut c, &plain_hdr(), &[HOp::Snap(5, a.clone()), HOp::Snap(5, b.clone()), HOp::Snap(6, b.clone())]);
+        do_hl(&mut c, &plain_hdr(), &[HOp::Snap(5, a.clone()), HOp::Snap(4, b.clone()), HOp::Snap(6, b.clone()), HOp::Msg(msgs[0].clone())]);
+        do_hl(&mut c, &plain_hdr(), &[HOp::Snap(-1, a.clone()), HOp::Snap(0, a.clone()), HOp::Snap(0, b.clone()), HOp::Snap(i32::MAX, b.clone()), HOp::Snap(i32::MAX, a.clone())]);
+        do_hl(&mut c, &plain_hdr(), &[HOp::Msg(msgs[0].clone()), HOp::Snap(0, vec![]), HOp::Snap(251, vec![]), HOp::Snap(250, a.clone()), HOp::Snap(501, a.clone()), HOp::Snap(502, a)]);
+    }
+    // extended (UUID) item types registered in a different order in consecutive snapshots
+    {
+        let uu: Vec<&(TypeId, Vec<SnapObj>)> = pool.types.iter().filter(|t| matches!(t.0, TypeId::Uuid(_))).collect();
+        let a = uu[0].1[0];
+        let b = uu.iter().find(|t| t.1[0].encode().len() != a.encode().len()).unwrap().1[0];
+        let c3 = uu.iter().rev().find(|t| t.1[0].encode().len() == a.encode().len() && t.0 != uu[0].0).map(|t| t.1[0]).unwrap_or(b);
+        do_hl(&mut c, &plain_hdr(), &[HOp::Snap(1, vec![(a, 0)]), HOp::Snap(2, vec![(b, 0)]), HOp::Snap(3, vec![(a, 0), (b, 1)])]);
+        do_hl(&mut c, &plain_hdr(), &[HOp::Snap(1, vec![(a, 0), (b, 0)]), HOp::Snap(2, vec![(b, 0)]), HOp::Snap(3, vec![(b, 0), (a, 0)]), HOp::Snap(4, vec![])]);
+        do_hl(&mut c, &plain_hdr(), &[HOp::Snap(1, vec![(a, 7)]), HOp::Snap(2, vec![(c3, 7)]), HOp::Snap(3, vec![(c3, 7), (a, 7)]), HOp::Snap(300, vec![(a, 7)]), HOp::Snap(301, vec![(b, 7), (c3, 7)])]);
+    }
+    // key-frame interval: last key frame + 250 is a delta, + 251 is a key frame
+    for gap in [1, 249, 250, 251, 252, 500] {
+        let a = vec![(pool.types[0].1[0], 7u16)];
+        do_hl(&mut c, &plain_hdr(), &[HOp::Snap(10, a.clone()), HOp::Snap(10 + gap, a.clone()), HOp::Snap(11 + gap, vec![]), HOp::Snap(12 + gap, a)]);
+    }
+    // world histories; the long ones cross more than one key-frame interval
+    for i in 0..(if th { 400 } else { 40 }) {
+        let n = match i % 4 { 0 => 300, 1 => 40, 2 => 8, _ => 120 };
+        let mut h = if r.chance(1, 2) { plain_hdr() } else { gen_hdr(&mut r) };
+        h.length = h.length.max(0);
+        let ops = gen_history(&mut r, &pool, &msgs, n, i % 2 == 0);
+        do_hl(&mut c, &h, &ops);
+    }
+    // other refusals (known finding K15W): duplicate key, too many items, too large a snapshot, too long a message
+    {
+        let o1 = pool.types[1].1[0];
+        do_hl(&mut c, &plain_hdr(), &[HOp::Snap(1, vec![(o1, 1), (o1, 1)]), HOp::Snap(2, vec![(o1, 2)]), HOp::Snap(3, vec![])]);
+        let many: Vec<(SnapObj, u16)> = (0..1100u16).map(|i| (pool.types[4].1[0], i)).collect();
+        do_hl(&mut c, &plain_hdr(), &[HOp::Snap(1, many.clone()), HOp::Snap(2, vec![(o1, 2)])]);
+        let full: Vec<(SnapObj, u16)> = (0..1024u16).map(|i| (pool.types[4].1[0], i)).collect();
+        do_hl(&mut c, &plain_hdr(), &[HOp::Snap(1, full), HOp::Snap(2, vec![(o1, 2)])]);
     }
     c.o.finish();
 }
